@@ -62,8 +62,46 @@ class NdArray:
     def tolist(self):
         return self.data
 
+    def _flat(self):
+        out, todo = [], [self.data]
+        while todo:
+            x = todo.pop(0)
+            if isinstance(x, (list, tuple)):
+                todo = list(x) + todo
+            else:
+                out.append(x)
+        return out
+
+    @property
+    def shape(self):
+        sh, x = [], self.data
+        while isinstance(x, (list, tuple)):
+            sh.append(len(x))
+            x = x[0] if x else None
+        return tuple(sh)
+
+    @property
+    def size(self):
+        return len(self._flat())
+
+    @property
+    def dtype(self):
+        return "int64" if all(isinstance(x, int) and not isinstance(x, bool) for x in self._flat()) else "float64"
+
+    def tobytes(self):
+        """the entries in row-major order, 8 bytes each: neither the shape nor the dtype is part of it"""
+        import struct
+
+        flat = self._flat()
+        return b"".join(struct.pack("<q", x) if self.dtype == "int64" else struct.pack("<d", float(x)) for x in flat)
+
+    def flatten(self):
+        return NdArray(self._flat())
+
+    ravel = flatten
+
     def _items(self):
-        flat = list(self.data)
+        flat = self._flat()
         show = flat if len(flat) <= 1000 else flat[:3] + [None] + flat[-3:]
         return ", ".join("..." if x is None else (f"{float(x):.8g}" + ("." if float(x) == int(float(x)) else "")) for x in show)
 
